@@ -391,6 +391,23 @@ class Program:
     def fns(self, name):
         return self.by_name.get(name, [])
 
+    def macro_int(self, name):
+        """Integer value of an object-like macro of the public header abt.h (error codes
+        are macros, not enumerators).  Table lookup only; None if absent."""
+        if getattr(self, "_macros", None) is None:
+            import re
+            self._macros = {}
+            repo = getattr(self, "repo", "/repo")
+            for rel in ("src/include/abt.h",):
+                try:
+                    for line in open(os.path.join(repo, rel)):
+                        m = re.match(r"#define\s+(ABT_[A-Z0-9_]+)\s+\(?(-?\d+)\)?\s*(/\*.*)?$", line.strip())
+                        if m:
+                            self._macros[m.group(1)] = int(m.group(2))
+                except OSError:
+                    pass
+        return self._macros.get(name)
+
     def record(self, name):
         r = self.records.get(name)
         if r is None:
